@@ -49,7 +49,7 @@ def build_any(glyphs, overrides, names=None, with_features=False):
                 if cfg.has_picosvgs:
                     svg = svg.topicosvg(inplace=True)
             bitmap = PNG(pngs[i]) if (cfg.has_bitmaps and pngs) else None
-            name = names[i] if names else glyph_name(g.codepoints)
+            name = names[i] if names else (getattr(g, "name", None) or glyph_name(g.codepoints))
             inputs.append(
                 write_font.InputGlyph(
                     Path(f"src/g{i}.svg") if cfg.has_svgs else None, Path(f"png/g{i}.png") if bitmap is not None else None, g.codepoints, name, svg, bitmap
@@ -104,7 +104,7 @@ class HarnessError(Exception):
 
 
 def gen_bad_input(rng):
-    kind = rng.choice(["dup-codepoints", "dup-codepoints-files", "dup-name", "dup-preexisting-name", "palette-conflict", "bad-fill", "bad-spread", "too-big-bitmap", "missing-svg", "unparsable-svg", "masters-differ", "dup-basename"])
+    kind = rng.choice(["dup-codepoints", "dup-codepoints-files", "dup-basename-cli", "dup-name", "dup-preexisting-name", "palette-conflict", "bad-fill", "bad-spread", "too-big-bitmap", "missing-svg", "unparsable-svg", "masters-differ", "dup-basename"])
     fmt = rng.choice(["glyf_colr_1", "glyf_colr_0", "picosvg", "untouchedsvg", "glyf"])
     return {"case": {"kind": kind, "fmt": fmt, "seed": rng.randrange(1 << 30)}}
 
@@ -156,6 +156,28 @@ def try_build(case):
                 open(fea, "w").write("")
                 inputs = list(write_font._inputs(cfg._replace(fea_file=fea), gms))
                 out["font"] = write_font._generate_color_font(cfg._replace(fea_file=fea), inputs)[1]
+        elif kind == "dup-basename-cli":
+            # the command line itself: two different drawings with one file name (in two
+            # directories), next to a valid one -- the CLI must fail and leave no font
+            a = _simple_glyph(rng, (0x1F600,))
+            b = _simple_glyph(rng, (0x1F600,))
+            c = _simple_glyph(rng, (0x1F601,))
+            with tempfile.TemporaryDirectory(prefix="verif_e2e_") as d:
+                files = []
+                for sub, nm, g in (("set_a", "emoji_u1f600.svg", a), ("set_b", "emoji_u1f600.svg", b), ("set_a", "emoji_u1f601.svg", c)):
+                    os.makedirs(os.path.join(d, sub), exist_ok=True)
+                    p_ = os.path.join(d, sub, nm)
+                    open(p_, "w").write(e2e.svg_text(g))
+                    files.append(os.path.relpath(p_, d))
+                rng.shuffle(files)
+                src = next((p_ for p_ in sys.path if p_.endswith("/src") and os.path.isdir(os.path.join(p_, "nanoemoji"))), "/repo/src")
+                env = dict(os.environ, PYTHONPATH=src, PATH="/venv/bin:" + os.environ.get("PATH", ""))
+                r_ = subprocess.run([sys.executable, "-m", "nanoemoji.nanoemoji", "--color_format", fmt, "--build_dir", os.path.join(d, "build")] + files, cwd=d, env=env, capture_output=True, text=True, timeout=600)
+                wrote = [f for f in os.listdir(os.path.join(d, "build")) if f.endswith((".ttf", ".otf"))] if os.path.isdir(os.path.join(d, "build")) else []
+                if r_.returncode == 0 or wrote:
+                    out["font"] = f"CLI exit {r_.returncode}, wrote {wrote}"
+                else:
+                    out["raised"] = "CLI exited %d: %s" % (r_.returncode, (r_.stderr or r_.stdout)[-160:].replace("\n", " "))
         elif kind == "dup-name":
             a = _simple_glyph(rng, (0x1F600,))
             b = _simple_glyph(rng, (0x1F601,))
@@ -648,13 +670,20 @@ def option_problems(glyphs, overrides, result):
 # ---------------------------------------------------------------------------- C14
 
 
-def gen_bitmap_set(rng):
+def gen_bitmap_set(rng, i=None):
     fmt = rng.choice(["cbdt", "sbix"])
     res = rng.choice([32, 64, 128, 136])
     n = rng.randint(1, 4)
-    glyphs = [_simple_glyph(rng, (0x1F600 + 2 * i,)) for i in range(n)]
+    glyphs = [_simple_glyph(rng, (0x1F600 + 2 * i_,)) for i_ in range(n)]
+    if i is not None and i % 5 == 0 and n >= 2:
+        # artwork for .notdef (glyph 0): the colour glyphs are then glyph 0 and glyphs 2.. --
+        # two runs of glyph ids, as .space (glyph 1) has no bitmap
+        glyphs[rng.randrange(n)].name = ".notdef"
     pngs = [_png(rng.choice([res, res, min(250, res * 2), res // 2 + 1]), res, e2e._rgb(rng)) for _ in range(n)]
-    if n > 1 and rng.random() < 0.3:
+    if n > 1 and rng.random() < 0.3 and not any(getattr(g, "name", None) for g in glyphs):
+        # (not together with a .notdef bitmap: that one sits in a strike of its own, where another
+        # height is representable -- but every bitmap is assumed to be of height
+        # bitmap_resolution, which is what the driver renders: BitmapMetrics.create's precondition)
         # one strike has one ppem: a set of bitmaps of different pixel heights cannot be
         # represented (it must be rejected, or every glyph must still get its own ppem)
         k = rng.randrange(n)
@@ -672,7 +701,7 @@ def bitmap_problems(glyphs, overrides, result):
     bad = []
     F = cfg.ascender - cfg.descender
     for g, png in zip(glyphs, result["pngs"]):
-        name = glyph_name(g.codepoints)
+        name = getattr(g, "name", None) or glyph_name(g.codepoints)
         w, h = Image.open(io.BytesIO(png)).size
         ppem = round(cfg.upem * h / F)
         adv_px = round(max(cfg.width, w * F / h) * h / F)
